@@ -71,6 +71,8 @@ RC.append(("np.linalg.solve with batched matrix and broadcasting vector right-ha
            [("C07", "solve", "*", "gauss-newton-hessian-wrong", "batch_broadcast:True,rhs_vector:True")]))
 RC.append(("np.einsum where a LABELLED size-1 dimension broadcasts against a larger dimension with the same label: the gradient of the larger operand is not broadcast back up "
            "(and comes out with the size-1 shape)",
-           [(p, "einsum", "rev", k, "size1_label_broadcast:True") for p, k in (("C01", "wrong-shape"), ("C05", "wrong-structure"), ("C09", "wrong-shape"), ("C01", "wrong-value"))]))
+           [(p, "einsum", "rev", k, "size1_label_broadcast:True,argnum:~(1|joint)") for p, k in (("C01", "wrong-shape"), ("C05", "wrong-structure"), ("C09", "wrong-shape"), ("C01", "wrong-value"))]))
 RC.append(("ArrayBox.flatten is an alias of ravel: under differentiation x.flatten() returns a view of its input where ndarray.flatten() returns a copy",
            [("C06", "ravel", "*", "result-aliases-input", "form:x.fl")]))
+RC.append(("np.einsum in the interleaved (operand, sublist) convention WITHOUT an Ellipsis never un-broadcasts: a labelled size-1 dimension that was broadcast is not summed back",
+           [(p, "einsum", "rev", k, "convention:interleaved,size1_label_broadcast:True") for p, k in (("C01", "wrong-shape"), ("C05", "wrong-structure"), ("C09", "wrong-shape"), ("C01", "wrong-value"))]))
